@@ -154,6 +154,13 @@ func c19Dir(c *c19Case, withManip bool) (*Dir, *refcfg.CertCfg) {
 		ent.Issuer = "ca"
 	}
 	d.Certs = append(d.Certs, ent)
+	if c.ExtSet == 1 && !c.CSR {
+		// the manipulated entity issues a certificate itself: the child's hashed authority key id follows the
+		// key bits the issuer's certificate shows, its issuer name and signature the real name and key
+		d.Certs = append(d.Certs, &refcfg.CertCfg{Path: "kid.yaml", Subject: "CN=Issued By The Manipulated One", Issuer: "ent", KeyAlg: "P-224", SigAlg: "RSAwithSHA256",
+			Serial: refcfg.I64(77), Validity: &refcfg.Validity{From: "2022-02-03", Until: "2030-04-05"},
+			Exts: []refcfg.Ext{{Kind: refcfg.KSKI, SKI: refcfg.S("hash")}, {Kind: refcfg.KAKI, AKIHash: true}}})
+	}
 	return d, ent
 }
 
@@ -168,6 +175,9 @@ func c19Exec(x *engine.Ctx, cc any) {
 		}
 		if c.Sub {
 			w.Put("ca.pem", FixtureKeyPEM("RSA-2048-0"))
+		}
+		if c.ExtSet == 1 && !c.CSR {
+			w.Put("kid.pem", FixtureKeyPEM("P-224-0"))
 		}
 	}
 	dBase, _ := c19Dir(c, false)
@@ -224,6 +234,15 @@ func c19Exec(x *engine.Ctx, cc any) {
 	}
 	for _, df := range diffs {
 		x.Violation("C19/"+strings.TrimPrefix(df.Class, df.Owner+"/")+" ["+feat+"]", keySet+"\n"+df.Detail)
+	}
+	if c.ExtSet == 1 && !c.CSR {
+		kd, _, err := gm.CompareEntity(dMan, "kid", "")
+		if err != nil {
+			x.Violation("C19/issued-by-manipulated/compare "+feat, err.Error())
+		}
+		for _, df := range kd {
+			x.Violation("C19/issued-by-manipulated/"+strings.TrimPrefix(df.Class, df.Owner+"/")+" ["+feat+"]", keySet+"\n"+df.Detail)
+		}
 	}
 	// (2) differential: every TBS field other than the named ones is byte-identical to the unmanipulated certificate
 	may := map[string]bool{}
@@ -296,7 +315,7 @@ func init() {
 	register(&engine.Check{
 		ID:          "C19",
 		Level:       "exploration",
-		Rule:        "all 64 subsets of the six manipulation keys (one value each), every single key with every value (version {0,1,2,3,255}; OIDs {1.2.3.4, sha256WithRSA, ecdsa-with-SHA256, 2.999.1}; byte fields {!empty,!null,4 B,100 B}), value products for pairs (quick, half) / for all subsets of size <=4 (thorough), each x {root, subordinate, subordinate whose key material is a certificate request} x extension set {none, SKI+AKI hash, all kinds}. Existing RSA keys, configured serial and absolute dates make the certificate deterministic: it is compared (1) field by field with the reference translation, (2) differentially with the same configuration without the block (every other TBS field byte-identical; outer-only manipulations leave TBS and RSA signature identical), (3) signature verified over the actual TBS bytes with the real issuer key. non-trivial = distinct case",
+		Rule:        "all 64 subsets of the six manipulation keys (one value each), every single key with every value (version {0,1,2,3,255}; OIDs {1.2.3.4, sha256WithRSA, ecdsa-with-SHA256, 2.999.1}; byte fields {!empty,!null,4 B,100 B}), value products for pairs (quick, half) / for all subsets of size <=4 (thorough), each x {root, subordinate, subordinate whose key material is a certificate request} x extension set {none, SKI+AKI hash, all kinds}; with the SKI+AKI set the manipulated entity also issues a certificate with hashed key ids, compared with the reference as well. Existing RSA keys, configured serial and absolute dates make the certificate deterministic: it is compared (1) field by field with the reference translation, (2) differentially with the same configuration without the block (every other TBS field byte-identical; outer-only manipulations leave TBS and RSA signature identical), (3) signature verified over the actual TBS bytes with the real issuer key. non-trivial = distinct case",
 		Bound:       map[string]string{"subset size with full value product": "quick 2 (half), thorough 4"},
 		Assumptions: []string{"RSA PKCS#1 v1.5 signing is deterministic"},
 		Budget:      budgets(quickBudget, thoroughBudget),
